@@ -91,6 +91,18 @@ static uint8_t* rg_patch_footer(const rg_case* c, const uint8_t* buf, size_t siz
             m->statistics.has_null_count = s->has_nc != 0; m->statistics.null_count = s->nc;
         }
         if (c->t == T_I96 && md.num_schema_elements >= 2) { md.schema[1].type = (carquet_physical_type_t)T_I96; md.schema[1].type_length = 0; }
+        /* every other case: the column sits inside a REQUIRED group (root, g, c): levels stay 0, the page bytes stay valid,
+         * column 0 is still the only leaf - but its schema element is number 2, not "column + 1" */
+        if (((c->ng + c->op + c->maxidx) & 1) && md.num_schema_elements == 2) {
+            parquet_schema_element_t* ne = (parquet_schema_element_t*)carquet_arena_calloc(&arena, 3, sizeof *ne);
+            if (ne) {
+                ne[0] = md.schema[0]; ne[0].num_children = 1;
+                memset(&ne[1], 0, sizeof ne[1]); ne[1].name = (char*)"g"; ne[1].has_repetition = true;
+                ne[1].repetition_type = CARQUET_REPETITION_REQUIRED; ne[1].num_children = 1;
+                ne[2] = md.schema[1];
+                md.schema = ne; md.num_schema_elements = 3;
+            }
+        }
         carquet_buffer_t ob; carquet_buffer_init(&ob);
         if (parquet_write_file_metadata(&md, &ob, &err) == CARQUET_OK) {
             size_t body = size - 8 - fl;
